@@ -317,6 +317,30 @@ def check(ctx):
     # ---- C03.c reader gating ----
     readers = reader_types(prog, trackers)
     ctx.floor("C03.c", len(readers), 8, "reader types holding a tracker")
+    # who-reads table (rules/readers.json): a reader type reads the trackers it read on the pinned tree. A reader that starts
+    # to consult another tracker sees metadata that was prepared for another kind of reader (e.g. the entity-reaction tracker
+    # is prepared with a placeholder type id for entity events), which no gating rule below can vouch for.
+    import json as _json
+    import os as _os
+    try:
+        with open(_os.path.join(_os.path.dirname(_os.path.abspath(__file__)), "readers.json")) as fh:
+            pinned_readers = _json.load(fh)
+    except OSError:
+        pinned_readers = {}
+        ctx.fail("C03.c", "anchor-lost:readers.json", "", "pinned reader/tracker table missing")
+    tshort = {t.split("::")[-1] for t in trackers}
+    for rty, tys in sorted(readers.items()):
+        rname = rty.split("::")[-1]
+        if rname not in pinned_readers or rname == "FetchState":      # FetchState: generated by derive(SystemParam), one per reader
+            continue
+        extra = sorted({t.split("::")[-1] for t in tys} - set(pinned_readers[rname]))
+        # a renamed tracker: a pinned name that no tracker type carries any more frees one slot
+        gone = [p_ for p_ in pinned_readers[rname] if p_ not in tshort]
+        extra = extra[len(gone):]
+        adt_ = prog.adts.get(rty) or {}
+        ctx.check(not extra, "C03.c", "%s:reads-only-its-pinned-trackers" % rname, "%s:%s" % (adt_.get("file", ""), adt_.get("line", "")),
+                  "%s holds %s" % (rname, sorted(t.split("::")[-1] for t in tys)),
+                  "%s now also reads %s (pinned: %s): it would see metadata prepared for another kind of reader" % (rname, extra, pinned_readers[rname]))
     n_methods = 0
     for rty, tys in sorted(readers.items()):
         rname = rty.split("::")[-1]
@@ -333,10 +357,30 @@ def check(ctx):
                 sp = lib.impl_self_path(cb)
                 if sp in trackers and cb.raw.get("name") not in ("is_reacting",) and not cb.raw.get("impl_trait"):
                     accs.append((b, t, cb, sp))
+            # direct reads of tracker data fields (an accessor inlined into the reader, or a field made visible): only
+            # where the tracker's flag was read true
+            mk = "%s::%s" % (rname, m.raw.get("name"))
+            for sp_ in tys:
+                fl_ = tracker_flags.get(sp_)
+                if not fl_:
+                    continue
+                heads_f = field_true_heads(m, sp_, fl_[0], any_base=True)
+                for b, i, st in m.iter_stmts():
+                    if st["k"] != "assign":
+                        continue
+                    rv = st["rv"]
+                    p_ = op_place(rv["use"]) if "use" in rv else rv.get("ref")
+                    if p_ is None or not p_["p"]:
+                        continue
+                    ff = lib.field_of(p_)
+                    if not ff or ff[0] != sp_ or ff[1] == fl_[0] or ff[1] not in set(accessor_fields.get(sp_, {}).values()):
+                        continue
+                    ctx.check(any(m.dominates(h_, b) for h_ in heads_f), "C03.c", "%s:%s-read-gated-by-flag" % (mk, ff[1]), m.loc(b, i),
+                              "tracker field %s read only where %s was read true" % (ff[1], fl_[0]),
+                              "%s reads the tracker field %s directly on a path where the flag %s was not checked" % (mk, ff[1], fl_[0]))
             if not accs:
                 continue
             n_methods += 1
-            mk = "%s::%s" % (rname, m.raw.get("name"))
             # heads: true arms of is_reacting() on the same tracker, or return targets of gate-function calls
             heads = {}
             for b, t, cb in lib.local_call_bodies(prog, m):
@@ -410,6 +454,11 @@ def check(ctx):
     import c02 as _c02
     import core as _core3
     ngg = _core3.adopt(ctx, _c02, lambda o: o["rule"] == "C02.c" and "::replay:" in o["key"], "C03.g")
+    # every invocation is disposed of exactly once, by a run or by the abort helper (setup then cleanup): both consume the
+    # entry prepare() queued; an invocation dropped any other way leaves its entry to be claimed by a later run
+    ngg += _core3.adopt(ctx, _c02, lambda o: o["rule"] == "C02.a" and ("dispositions=" in o["key"] or "single-disposition" in o["key"]), "C03.g")
+    import c05 as _c05
+    ngg += _core3.adopt(ctx, _c05, lambda o: o["rule"] == "C05.d" and "buffered-cleanup-only-through-abort-helper" in o["key"], "C03.g")
     ctx.floor("C03.g", ngg, 5, "shared replay obligations (C02.c)")
     # ---- C03.f the flags are cleared before anything the run queued can run (shared with C04.a / C04.b) ----
     # ('every reader for another kind reports nothing' and 'a manual run sees nothing' for commands queued by a reacting run)
@@ -454,8 +503,8 @@ def returned_field_path(m):
     return paths.pop() if len(paths) == 1 else None
 
 
-def field_true_heads(m, ty, flag):
-    """blocks entered only where `self.<flag>` (a bool field) was read true"""
+def field_true_heads(m, ty, flag, any_base=False):
+    """blocks entered only where `self.<flag>` (a bool field) was read true (any_base: through any reference to a `ty`)"""
     heads = []
     for b in sorted(m.reachable):
         t = m.blocks[b]["term"]
@@ -467,7 +516,7 @@ def field_true_heads(m, ty, flag):
         seen = set()
         while p is not None and not ok:
             if p["p"]:
-                ok = p["l"] == 1 and lib.field_of(p) == (ty, flag)
+                ok = (p["l"] == 1 or any_base) and lib.field_of(p) == (ty, flag)
                 break
             if p["l"] in seen:
                 break
